@@ -772,3 +772,5 @@ def run(report, repo):
   report.guard(r7_record_once, report, repo)
   from sa.rules import c01  # pylint: disable=g-import-not-at-top
   report.guard(c01.r7_last_record, report, repo, rule='C05-R8')
+  from sa.rules import c06  # pylint: disable=g-import-not-at-top
+  report.guard(c06.r7_measurements_pass, report, repo, rule='C05-R9')
